@@ -222,7 +222,7 @@ func init() {
 		Rule: "v1 (package lib) cases are (a, b, metadata) over {none, SET, MULTISET, SET+Setkeys(id), MERGE (null-free), SET+MERGE, MULTISET+MERGE, SetPrecision(0.1), MULTISET+Setkeys(id)}: random structured pairs (plus set / multiset members that are 1-140 KB strings differing in one middle byte, multiplicities up to 257) with arrays growing, shrinking and changing in place, equal-under-reading pairs, keyed member pairs, " +
 			"every array pair over {1,2,3} up to length 4 at three positions; verdict: diff empty <=> lib Equals <=> independent oracle; Patch of the in-memory diff (on a fresh parse of a and on the very operand the diff was computed from) and of the rendered+re-read diff gives b (lib Equals and reference canon); plus the -v2=false binary pipeline; " +
 			"non-trivial = non-empty diff; distinct = distinct (a, b, metadata)",
-		Floors: map[string]int{"round_trips_ok": 50000, "diff_empty": 5000, "hunks>=2": 10000, "root_array_grows": 3000, "root_array_shrinks": 3000, "root_array_same_length": 3000, "cli_v1_pipelines": 200, "b_is_patch_result": 3000, "applied_to_the_operand_itself": 5000, "multiset_with_setkeys": 3000, "uncommon_metadata_pairs": 3000, "bulky_member_cases": 300},
+		Floors: map[string]int{"round_trips_ok": 50000, "diff_empty": 5000, "hunks>=2": 10000, "root_array_grows": 3000, "root_array_shrinks": 3000, "root_array_same_length": 3000, "cli_v1_pipelines": 200, "b_is_patch_result": 3000, "applied_to_the_operand_itself": 5000, "multiset_with_setkeys": 3000, "uncommon_metadata_pairs": 3000, "keyless_members_next_to_keyed": 3000, "bulky_member_cases": 300},
 		Assumptions: []string{
 			"v1 needs SET next to Setkeys for keyed sets (dispatch looks at SET / MULTISET only)",
 			"MERGE inputs are null-free; Setkeys inputs satisfy the key precondition with scalar key values",
@@ -269,6 +269,30 @@ func init() {
 			},
 		})
 	}
+	p.Strata = append(p.Strata, mon.Stratum{
+		Name: "setkeys-with-keyless-members",
+		N:    qt(4000, 200000),
+		Run: func(c *mon.Ctx, i int) {
+			// keyed members change, come and go next to several DIFFERENT objects that lack the key
+			// (identified by their whole content); nested arrays of keyed members gain several values at once
+			a, b := keyedMemberPair(c.R, gen.PTiny, []string{"id"})
+			addKeyless := func(v any) any {
+				extra := []any{map[string]any{"n": 1.0}, map[string]any{"n": 2.0, "m": []any{}}, map[string]any{}}
+				switch t := v.(type) {
+				case []any:
+					return append(append([]any{}, t...), extra...)
+				case map[string]any:
+					if l, ok := t["list"].([]any); ok {
+						t["list"] = append(append([]any{}, l...), extra...)
+					}
+				}
+				return v
+			}
+			a, b = addKeyless(a), addKeyless(b)
+			c.Feature("keyless_members_next_to_keyed")
+			c17Judge(c, ref.ToJSON(a), ref.ToJSON(b), V1Keys)
+		},
+	})
 	// MULTISET together with Setkeys: the arrays stay bags (v1 reads keyed sets under SET only)
 	v1MsetKeys := V1Set{Name: "v1:MULTISET+Setkeys(id)", MD: func() []lib.Metadata { return []lib.Metadata{lib.MULTISET, lib.Setkeys("id")} }, Reading: ref.Multiset,
 		Flags: []string{"-mset", "-setkeys", "id"}}
